@@ -1,0 +1,21 @@
+//go:build verif
+
+package x509
+
+// ZVEKUConstants returns a copy of ekuConstants (dotted OID -> ExtKeyUsage), the table extKeyUsageFromOID consults.
+func ZVEKUConstants() map[string]int {
+	out := make(map[string]int, len(ekuConstants))
+	for k, v := range ekuConstants {
+		out[k] = int(v)
+	}
+	return out
+}
+
+// ZVNativeEKU returns nativeExtKeyUsageOIDs, the table oidFromExtKeyUsage (hence buildExtensions) consults.
+func ZVNativeEKU() (ekus []int, oids [][]int) {
+	for _, p := range nativeExtKeyUsageOIDs {
+		ekus = append(ekus, int(p.extKeyUsage))
+		oids = append(oids, append([]int{}, p.oid...))
+	}
+	return
+}
